@@ -94,7 +94,7 @@ class Call:
     def is_(self, *names):
         """match declared or resolved callee against def-paths, ignoring generic args"""
         c, r = strip_generics(self.callee), strip_generics(self.resolved)
-        return any(n == c or n == r for n in names)
+        return any(strip_generics(n) in (c, r) for n in names)
 
     def __repr__(self):
         return "Call(%s @bb%d %s)" % (self.callee, self.bb, self.span)
@@ -463,6 +463,12 @@ class Facts:
             b = self.bodies.get(r)
             if b is not None:
                 out.append((c, b))
+            elif c.trait and c.trait.startswith("selium") and not c.t.get("resolved_local"):
+                # unresolved call through a workspace trait (generic / dyn receiver): every local impl may be the callee
+                for im in self.impls_of(c.trait):
+                    p = im["items"].get(c.name())
+                    if p and p in self.bodies:
+                        out.append((c, self.bodies[p]))
         if include_closures:
             for i, j, pl, rv, s in body.assigns():
                 if rv["k"] == "agg" and rv.get("agg") in ("closure", "coroutine", "coroutine_closure"):
